@@ -503,15 +503,15 @@ def write(m, ch, ch_atoms=None, variants=True, label_style=None, digit_after_bra
             _, x, parent = item
             nk = len(plans[x]["kids"])
             pre_k = 0
-            if digit_after_branch and ring_events[x] and nk >= 2 and ch.bool(digit_after_branch):
-                pre_k = ch.int(1, nk - 1)
+            if digit_after_branch and ring_events[x] and nk >= 1 and ch.bool(digit_after_branch):
+                pre_k = ch.int(1, nk)      # pre_k == nk: every neighbour in parentheses, the digits come last
                 nonstandard[0] = True
             kids = emit_atom(x, parent, pre_k)
             todo = []
             if pre_k == 0:
                 todo.append(("digits", x))
             for i, y in enumerate(kids):
-                last = i == len(kids) - 1
+                last = i == len(kids) - 1 and pre_k < len(kids)
                 o = m.order[frozenset((x, y))]
                 both_arom = m.atoms[x]["arom"] and m.atoms[y]["arom"]
                 mk = m.mark_dir(x, y)
